@@ -145,3 +145,37 @@ CHECK["suites"].append(dict(siggen.suite(siggen.oracle_c01),
 MANIFEST["level_note"] += (" Suite `signed` (oracle-free, no model): correctly signed queries incl. stale-time (BADTIME) ones around the "
                            "size limits, both transports; requirement: two responses, never a panic.")
 
+
+
+# ---- fourth suite: the server WITH response rate limiting configured (src/server/rrl.rs runs inside handle_message, and the
+# composed model has no RRL): C26's single-stream and mixed histories - every request kind incl. BADVERS with and without a
+# question, FORMERR without a question, suppressed responses - as a NO-PANIC stream.  The model/oracle columns are C26's business;
+# here the only requirement is that no request of a history panics or hangs.
+import c26 as _c26
+
+
+def _rrl_gen(rng, tier):
+    n = 2500 if tier == "quick" else 40000
+    for i, c in enumerate(_c26.gen(rng, tier)):
+        if i >= n:
+            break
+        yield c
+    for i, c in enumerate(_c26.gen_mixed(rng, tier)):
+        if i >= n // 2:
+            break
+        yield c
+
+
+CHECK["suites"].append({
+    "name": "rrlnopanic", "runner_name": "C26_rrl", "impl_bin": "impl_c26", "extract": "Extract/ExC26.v", "driver": "run_c26.ml",
+    "gen": _rrl_gen,
+    "nontrivial": lambda case, impl, model, oracle: impl.startswith("ok"),
+    "classify": lambda case, impl, model, oracle: impl.split()[0] if impl else "-",
+    "corr_eq": lambda case, impl, model: True,
+    "oracle_ok": lambda case, impl, oracle: impl not in ("panic", "timeout", "crash"),
+    "exhaustive": {"quick": False, "thorough": False},
+    "rule": ("C26's request histories against a Server with response rate limiting configured (every request kind of the RRL suites incl. "
+             "BADVERS with and without a question); requirement: no request panics or hangs"),
+})
+MANIFEST["level_note"] += (" Suite `rrlnopanic`: the same server with response rate limiting configured (not in the composed model) must "
+                           "not panic on C26's request histories.")
